@@ -2,7 +2,7 @@ SPECIFICATION Spec
 CONSTANTS MaxLen = 2 MaxN = 4 Infinite = FALSE MaxOut = 100
   Vals = "nat" Stops = FALSE MaxRuns = 1
   Alphabet <- AlphaFail
-  Must <- RaisersC01
+  Must <- RaisingC01
   Pairs <- Both
 INVARIANT OpEqDen
 INVARIANT OutIsPrefix
